@@ -383,6 +383,15 @@ where
                                 dynamic_props.insert("textContent".into());
                             }
                             Directive::VModel(directive) => {
+                                if !util::is_assignable(&directive.value) {
+                                    // `$event => (value) = $event` would not be valid code
+                                    HANDLER.with(|handler| {
+                                        handler.span_err(
+                                            directive.value.span(),
+                                            "The value of v-model must be something that can be assigned to.",
+                                        )
+                                    });
+                                }
                                 if is_component {
                                     props.push(PropOrSpread::Prop(Box::new(Prop::KeyValue(
                                         KeyValueProp {
